@@ -59,7 +59,12 @@ def d1(cx: Cx, ob: Ob) -> None:
         flags = {a[1]: pol for a, pol in atoms if op(a) == "param"}
         if flags.get("strict") is not True:
             ob.violate(init.qualname, where(init, line), f"{cls} is not raised under the `strict` test", witness=describe_path(ctx), detail=f"strict-guard:{cls}")
-        if fn is not None and stored and call_t[2][:1] != (stored[0],):
+        from ..rules import _strip_views
+
+        def _same(a, b):
+            return a == b or _strip_views(a) == _strip_views(b)
+
+        if fn is not None and stored and not (call_t[2] and _same(call_t[2][0], stored[0])):
             ob.violate(init.qualname, where(init, line), f"the {cls} detector runs on `{show(call_t[2][0])[:50] if call_t[2] else '?'}`, not on the record list the converter keeps (`{show(stored[0])[:50]}`)", detail=f"detector-arg:{cls}")
         # raised exactly when the detector result is non-empty
         last = [pol for a, pol in atoms if a == call_t]
@@ -429,8 +434,17 @@ def d6(cx: Cx, ob: Ob) -> None:
         a = t[2][0] if t[2] else None
         want = "_get_duplicate_uri_prefixes" if t[1][1].endswith("DuplicateURIPrefixes") else "_get_duplicate_prefixes"
         inner = a[2][0] if op(a) == "call" and a[2] else None
-        while op(inner) == "call" and inner[1] in (("builtin", "sorted"), ("builtin", "list"), ("builtin", "tuple")) and inner[2]:
-            inner = inner[2][0]  # order-only wrappers keep the collection
+        while True:
+            if op(inner) == "call" and inner[1] in (("builtin", "sorted"), ("builtin", "list"), ("builtin", "tuple")) and inner[2]:
+                inner = inner[2][0]  # order-only wrappers keep the collection
+            elif op(inner) in ("list", "tuple") and len(inner[1]) == 1 and op(inner[1][0]) == "star":
+                inner = inner[1][0][1]  # [*records]
+            elif op(inner) == "new" and op(inner[4]) in ("list", "tuple") and len(inner[4][1]) == 1 and op(inner[4][1][0]) == "star":
+                inner = inner[4][1][0][1]  # own = [*records]; own.sort(...)
+            elif op(inner) == "slice" and is_const(inner[2], None) and is_const(inner[3], None):
+                inner = inner[1]
+            else:
+                break
         if not (op(a) == "call" and callee_name(a) == want and inner == ("param", "records")):
             ob.violate(ctor.qualname, where(ctor, o[2]), f"{t[1][1].rsplit('.', 1)[-1]} is raised with `{show(a)[:70]}`, not with the full result of {want}(records)", detail=f"raise-arg:{want}")
     if n < 2:
